@@ -5,7 +5,8 @@ Checks run: the property's own check and a fixed set of checks that are sensitiv
 (C01 C02 C04 C09 C15 C16 C17), or all twenty with --all."""
 import json, os, shutil, subprocess, sys
 slot, pid = sys.argv[1], sys.argv[2]
-wt = f"/tmp/wt-{pid}n2"
+RND = os.environ.get("NEUTRAL_ROUND", "2")
+wt = f"/tmp/wt-{pid}n{RND}"
 sent = ["C01", "C02", "C04", "C09", "C15", "C16", "C17"]
 checks = [f"C{i:02d}" for i in range(1, 21)] if "--all" in sys.argv else [pid] + [c for c in sent if c != pid]
 try:
@@ -15,12 +16,12 @@ except Exception as e:
 for w in ("A", "B"):
     src = os.path.join(wt, "_neutral", f"{w}.diff")
     if not os.path.exists(src):
-        print(f"{pid}n2-{w}: no patch"); continue
-    dst = f"/verif/neutral/{pid}n2-{w}"
+        print(f"{pid}n{RND}-{w}: no patch"); continue
+    dst = f"/verif/neutral/{pid}n{RND}-{w}"
     os.makedirs(dst, exist_ok=True)
     shutil.copy(src, os.path.join(dst, "patch.diff"))
     res = f"/tmp/scr-{slot}-result.json"
     subprocess.run([sys.executable, "/verif/tools/scratchcheck.py", slot, os.path.join(dst, "patch.diff"), res, "--baseline"] + checks)
     out = json.load(open(res)) if os.path.exists(res) else {}
-    out["id"] = f"{pid}n2-{w}"; out["property"] = pid; out["agent"] = agent.get(w)
+    out["id"] = f"{pid}n{RND}-{w}"; out["property"] = pid; out["agent"] = agent.get(w)
     json.dump(out, open(os.path.join(dst, "meta.json"), "w"), indent=1)
